@@ -257,6 +257,8 @@ def check(run: Run) -> None:
         ("D5", "every :symbols:/:quantity_notation: role resolves; public Symbols of symbols/*.py are exported; __all__ names are bound"),
         ("D6", "no loop with order-visible effects iterates an unordered collection in the generator"),
         ("D7", "every evaluation-disable insertion is paired with a reset insertion; reset restores the default True"),
+        ("D8", "the role resolvers register every name bound to a Symbol / Quantity (the only admission test is the isinstance check), and no "
+               "f-string of the generator or its printers emits a literal `{name}` where `name` is a variable in scope (an unsubstituted placeholder)"),
     ]:
         run.rule(rid, text)
     stale = _patcher_anchors(run)
@@ -268,6 +270,7 @@ def check(run: Run) -> None:
         _d5_tables_only = True
         _d6(run, w)
         _d7(run, w)
+        _d8(run, w)
         if not run.findings:
             raise AnalysisError(stale)
         return
@@ -409,6 +412,7 @@ def check(run: Run) -> None:
 
     _d6(run, w)
     _d7(run, w)
+    _d8(run, w)
 
 
 _D1_FIXTURE = '''"""
@@ -487,6 +491,71 @@ def _order_visible(loop: ast.For) -> str | None:
                     continue
                 return f"`{norm(x.func, 40)}`"
     return None
+
+
+def unsubstituted_placeholders(fn: ast.AST):
+    """(node, name) for literal `{name}` text inside an f-string of `fn` where `name` is a parameter or local of fn"""
+    scope = set()
+    for x in ast.walk(fn):
+        if isinstance(x, ast.arg):
+            scope.add(x.arg)
+        elif isinstance(x, ast.Name) and isinstance(x.ctx, ast.Store):
+            scope.add(x.id)
+    for x in ast.walk(fn):
+        if isinstance(x, ast.JoinedStr):
+            for v in x.values:
+                if isinstance(v, ast.Constant) and isinstance(v.value, str):
+                    for mt in re.finditer(r"\{([A-Za-z_][A-Za-z0-9_]*)\}", v.value):
+                        if mt.group(1) in scope:
+                            yield x, mt.group(1)
+
+
+def _d8(run: Run, w: World) -> None:
+    from ..flow import conditions_for
+    for modname, cls in ((DOCS + "symbols_role", "Symbol"), (DOCS + "quantity_notation_role", "Quantity")):
+        m = run.src.need(modname)
+        adds = []
+        for loop in [x for x in ast.walk(m.tree) if isinstance(x, ast.For)]:
+            for st in loop.body:
+                for x in ast.walk(st):
+                    if isinstance(x, ast.Expr) and isinstance(x.value, ast.Call) and isinstance(x.value.func, ast.Attribute) and x.value.func.attr == "add" \
+                            and not any(isinstance(y, ast.For) and y is not loop and any(z is x for z in ast.walk(y)) for y in ast.walk(loop)):
+                        adds.append((loop, x))
+        # module-level registration only (process_string never adds)
+        adds = [(lp, x) for lp, x in adds if not any(isinstance(f_, ast.FunctionDef) and any(z is x for z in ast.walk(f_)) for f_ in m.tree.body)]
+        # the registration is the add of the loop's own name variable
+        adds = [(lp, x) for lp, x in adds if x.value.args and dotted(x.value.args[0]) == dotted(lp.target)]
+        run.ob("D8", f"{modname}:registration")
+        if len(adds) != 1:
+            raise AnalysisError(f"C19: registration loop of {modname} not understood ({len(adds)} add sites)")
+        loop, st = adds[0]
+        conds = conditions_for(loop, st) or []
+        conds = [(c, p) for c, p in conds if not isinstance(c, str)]
+        ok = len(conds) == 1 and conds[0][1] is True and isinstance(conds[0][0], ast.Call) and dotted(conds[0][0].func) == "isinstance" \
+            and dotted(conds[0][0].args[1]) == cls
+        if ok:
+            # the tested object is the attribute that is being registered
+            obj, name = dotted(conds[0][0].args[0]), dotted(st.value.args[0]) if st.value.args else None
+            defs = [a for a in loop.body if isinstance(a, ast.Assign) and dotted(a.targets[0]) == obj]
+            ok = len(defs) == 1 and isinstance(defs[0].value, ast.Call) and dotted(defs[0].value.func) == "getattr" and dotted(defs[0].value.args[1]) == name \
+                and dotted(loop.target) == name
+        if not ok:
+            run.violate("D8", f"{modname}:registration", m, st,
+                        f"{modname.rsplit('.', 1)[1]} registers a name under {[('' if p else 'not ') + norm(c, 50) for c, p in conds]} instead of exactly "
+                        f"`isinstance(getattr(container, name), {cls})`: a documented {cls} left out of the table makes its role unresolvable "
+                        f"(or, for symbols, silently linked to the last module scanned)")
+    n = 0
+    for m in run.src.mods.values():
+        if not m.name.startswith(DOCS):
+            continue
+        for fn in [x for x in ast.walk(m.tree) if isinstance(x, (ast.FunctionDef, ast.AsyncFunctionDef))]:
+            n += 1
+            run.ob("D8", f"placeholders:{m.name}:{fn.name}")
+            for node, name in unsubstituted_placeholders(fn):
+                run.violate("D8", f"{m.name}:{fn.name}:literal-{{{name}}}", m, node,
+                            f"f-string `{norm(node, 70)}` in {fn.name} emits the literal text `{{{name}}}` although `{name}` is a variable in scope: "
+                            f"the value is not substituted, so the page shows the placeholder instead of the module's own rendering")
+    run.floor("D8", n, 40, "functions of the documentation generator scanned for unsubstituted placeholders")
 
 
 def _d6(run: Run, w: World) -> None:
